@@ -52,7 +52,58 @@ func c06Scenarios(cfg runCfg) []Scenario {
 		}
 		out = append(out, Scenario{Family: "history", Seed: mix(cfg.seed, 6, uint64(i)), S: name, X: x})
 	}
+	for i := 0; i < cfg.n(64, 10); i++ {
+		if cfg.mine(i) {
+			out = append(out, Scenario{Family: "save-fails", Seed: mix(cfg.seed, 6, 66, uint64(i)), S: pick(newRng(cfg.seed, 66, uint64(i)), c06Names), K: i % 3})
+		}
+	}
 	return out
+}
+
+// c06SaveFails: the fail file cannot be written (a regular file sits where a directory is needed).  Persisting is a
+// convenience; the failure itself must be reported as usual (with the seed to reproduce it), nothing may crash and
+// nothing that looks like a fail file may appear.
+func c06SaveFails(t *testing.T, sc Scenario, res *Result) {
+	name := sc.S
+	blocker := []string{"testdata", filepath.Join("testdata", "rapid"), failDir(name)}[sc.K]
+	os.MkdirAll(filepath.Dir(blocker), 0o775)
+	if err := os.WriteFile(blocker, []byte("not a directory"), 0o644); err != nil {
+		res.inconclusive("cannot plant the blocking file: " + err.Error())
+		return
+	}
+	thr := int64(pick(newRng(sc.Seed, 1), []int{0, 5, 1000, 1 << 20}))
+	run := runBody(c06Body("text", thr, false, sc.Seed), runOpts{name: name, flags: map[string]string{"rapid.shrinktime": "50ms", "rapid.checks": "300"}})
+	res.inc("histories")
+	res.inc("save_fails_runs")
+	res.nontrivial(fmt.Sprintf("save-fails/%s/%d", sanitize(name), sc.K))
+	detail := map[string]any{"name": name, "blocking_file": blocker, "tb": run.tb.brief()}
+	if run.tb.escaped != nil {
+		res.violate(sc, "c06/save-fails-crash", fmt.Sprintf("Check crashed when the fail file could not be written: %v", run.tb.escaped), detail)
+		return
+	}
+	if run.rp.Kind != "failed" && run.rp.Kind != "panic" {
+		res.violate(sc, "c06/save-fails-verdict", "the failure was not reported when the fail file could not be written: "+clip(run.rp.Raw, 300), detail)
+		return
+	}
+	if run.rp.Seed == 0 || run.rp.FailFile != "" {
+		res.violate(sc, "c06/save-fails-message", "the message must offer the seed (and no fail file that does not exist): "+clip(run.rp.Raw, 300), detail)
+	}
+	logged := false
+	for _, l := range run.tb.logs() {
+		if strings.HasPrefix(l, "[rapid] failed to ") {
+			logged = true
+		}
+	}
+	if !logged {
+		res.violate(sc, "c06/save-fails-log", "no log line tells that the fail file could not be saved", detail)
+	}
+	v := judgeReality(run, true)
+	for _, pr := range v.problems {
+		res.violate(sc, "c06/save-fails/"+firstWords(pr, 5), "fail file could not be written: "+pr, detail)
+	}
+	if b, err := os.ReadFile(blocker); err != nil || string(b) != "not a directory" {
+		res.violate(sc, "c06/save-fails-clobbered", "the file that was in the way was modified or removed", detail)
+	}
 }
 
 func c06Output(x *X, kind string, r *rng) {
@@ -129,6 +180,10 @@ func listFailDir(name string) (final, temps, others []string) {
 func c06Run(t *testing.T, sc Scenario, res *Result) {
 	defer os.RemoveAll("testdata")
 	os.RemoveAll("testdata")
+	if sc.Family == "save-fails" {
+		c06SaveFails(t, sc, res)
+		return
+	}
 	r := newRng(sc.Seed, 0xc06)
 	name := sc.S
 	outKind := sc.X["out"]
